@@ -125,6 +125,18 @@ fn cases_for(b: usize, r: &Req, msg: &[u8], root: &BigUint, seed: u64, thorough:
             }
         }
     }
+    // other non-canonical encodings of the same value: the two bits above the 254-bit field size set (v + j * 2^254)
+    for k in 0..5usize {
+        for top in [0x40u8, 0x80, 0xC0] {
+            let mut m = msg.to_vec();
+            m[128 + 32 * k + 31] |= top;
+            let class = format!("high-bits-{}", ["root", "ext", "x", "y", "nullifier"][k]);
+            push("verify", &class, m.clone(), vec![], false, false);
+            push("verify_rln_proof", &class, with_signal(&m, &r.signal), vec![], false, false);
+            push("verify_with_roots", &class, with_signal(&m, &r.signal), own.clone(), false, false);
+            push("verify_with_roots", &format!("{class}.empty-root-set"), with_signal(&m, &r.signal), vec![], false, false);
+        }
+    }
     // alias of the own root in the root set only (message untouched): the set then holds the same field element
     // -- recorded, not judged (the message itself is canonically encoded)
     // over-long inputs: must not crash; verdict recorded only
@@ -363,7 +375,7 @@ impl Prop for C13 {
         ev.set("base_messages", json!(bases.len()));
         ev.set("input_classes", json!(classes.len()));
         ev.set("exhaustive", json!(true));
-        ev.set("rule", json!("for each accepted base message and each of verify, verify_rln_proof, verify_with_roots, recover_id_secret: every truncation length of the input (both arguments for recovery), declared signal length in {0, len-1, len+1, 2^32, 2^63, 2^64-1, wrapping}, each 32-byte field (4 proof chunks, 5 public values) replaced by zeros / ones / seeded random bytes, random proof part, entirely random input, every alias v + j*p < 2^256 of each of the five public values (also with an empty root set and with the same alias offered as accepted root), trailing bytes and odd-sized root buffers (must not crash, verdict recorded); everything except the untouched controls must return false or an error and nothing may panic; one representative of each (entry, class family) of the first base message forms a call alphabet, and every sequence of 2 (thorough 3) calls containing a control runs on a fresh thread and instance, each call judged as when made alone; distinct_nontrivial = cases other than the controls"));
+        ev.set("rule", json!("for each accepted base message and each of verify, verify_rln_proof, verify_with_roots, recover_id_secret: every truncation length of the input (both arguments for recovery), declared signal length in {0, len-1, len+1, 2^32, 2^63, 2^64-1, wrapping}, each 32-byte field (4 proof chunks, 5 public values) replaced by zeros / ones / seeded random bytes, random proof part, entirely random input, every alias v + j*p < 2^256 of each of the five public values and every encoding with the bits above the field size set (also with an empty root set and with the same alias offered as accepted root), trailing bytes and odd-sized root buffers (must not crash, verdict recorded); everything except the untouched controls must return false or an error and nothing may panic; one representative of each (entry, class family) of the first base message forms a call alphabet, and every sequence of 2 (thorough 3) calls containing a control runs on a fresh thread and instance, each call judged as when made alone; distinct_nontrivial = cases other than the controls"));
         for c in all.iter().filter(|c| c.class.starts_with("alias") || c.class.starts_with("declared")).step_by(23).take(4) {
             ev.sample(json!({"entry": c.entry, "class": c.class, "input_len": c.input.len(), "base": bases[c.base].to_json()}));
         }
